@@ -1,7 +1,7 @@
 \* trace validation, Layer P + Layer M.  Dev as on the pinned tree; lib/prop_C11.py rewrites the Dev line from the known-findings status
 CONSTANTS
   CheckM = TRUE
-  Dev = {"LateLockTrustsReply", "StrippedUnnoticed", "LockTrustsSlate"}
+  Dev = {"LateLockTrustsReply", "StrippedUnnoticed", "LockTrustsSlate", "SenderKeyFromActive"}
 SPECIFICATION TSpec
 POSTCONDITION Consumed
 CHECK_DEADLOCK FALSE
